@@ -292,7 +292,7 @@ func runMini(ctx *common.Ctx, auxDriver string) {
 	st := ctx.NewStream("mini", "Gojq.MiniVM.compileProg / step / exec (Model/MiniVM.lean) — theorem Gojq.C01Compile.compile_refines_spec_fragment",
 		"random programs of the proved fragment x random inputs: unoptimised real bytecode (gojq.VerifOptMask = all ones) = mini compiler output modulo renumbering, "+
 			"and real outputs = mini VM outputs; distinct = distinct (code, outcome) answers")
-	n := ctx.N(3000, 60000)
+	n := ctx.N(3000, 200000)
 	var lines, impl, labels []string
 	seen := map[string]bool{}
 	for len(lines) < n {
